@@ -145,6 +145,11 @@ def oracle(case, res):
     return None
 
 
+def side(ctx, proof):
+    from . import tcp as T
+    return T.timeout_under_lock_runs(ctx, (6 if ctx.tier == "quick" else 120) * (1 if proof["build_ok"] else 3))
+
+
 def run(ctx):
     return L.run_link_property(
         ctx, PID, gen_cases, oracle,
@@ -157,7 +162,7 @@ def run(ctx):
         nontrivial=lambda c: any(t["type"] == "timeout" and t["attributes"]["timeout"] > 0 for t in c["chain"]) and len(c["src"]) > 2,
         assumptions=["the families with a removal or a late addition are judged by the oracle and replayed through the executable reconfiguration model",
                      "a chunk arriving at exactly T is a genuine race in the code (select picks either arm); generators avoid the tie"],
-        model_filter=lambda c: not c.get("ops") and not c.get("staggered"))
+        model_filter=lambda c: not c.get("ops") and not c.get("staggered"), side_findings=side)
 
 
 def replay(ctx, path):
